@@ -6,6 +6,7 @@ pub mod c04;
 pub mod c05;
 pub mod c06;
 pub mod c07;
+pub mod c08;
 pub mod c10;
 pub mod c11;
 pub mod c12;
@@ -24,6 +25,7 @@ pub fn run(name: &str, ctx: &Ctx, rep: &mut Report) -> bool {
     "c05" => c05::run(ctx, rep),
     "c06" => c06::run(ctx, rep),
     "c07" => c07::run(ctx, rep),
+    "c08-lib" => c08::lib(ctx, rep),
     "c10" => c10::run(ctx, rep),
     "c11" => c11::run(ctx, rep),
     "c12" => c12::run(ctx, rep),
